@@ -117,8 +117,15 @@ def configured_message_rule(ctx, rule: str) -> None:
                     edits.append((owner, c))
                 elif isinstance(c.func, ast.Attribute) and c.func.attr in EDITING:
                     edits.append((owner, c))
-                elif isinstance(c.func, ast.Attribute) and c.func.attr == "strip" and not (c.args and const_str(c.args[0]) is not None and set(const_str(c.args[0])) <= set("'\" \t")):
-                    edits.append((owner, c))
+                elif isinstance(c.func, ast.Attribute) and c.func.attr == "strip":
+                    chars_ = None
+                    if c.args:
+                        try:
+                            chars_ = prog.fold(owner.module, c.args[0])
+                        except AnalysisError:
+                            chars_ = None
+                    if not (isinstance(chars_, str) and set(chars_) <= set("'\" \t")):
+                        edits.append((owner, c))
         ctx.check(rule, not edits, f"_parse_config: Config.{which} is the configured text, stripped of surrounding quotes / blanks only",
                   f"config._parse_config: the configured {which} is edited before it becomes the template",
                   f"`{unparse(edits[0][1])[:80]}` in {edits[0][0].fq}: e.g. `$HOME` / `~` in a configured message are expanded before the message reaches git" if edits else "",
